@@ -50,7 +50,7 @@ def main(argv=None):
     gen_ok, gen_msg = True, ""
     try:
         from . import extract
-        gen_ok, gen_msg = extract.regenerate()
+        gen_ok, gen_msg = extract.regenerate(pid)
     except ImportError:
         pass
     if args.oracle_only:
